@@ -1702,6 +1702,9 @@ func (t *Topic) thisUserSub(sess *Session, pkt *ClientComMessage, asUid types.Ui
 			if t.cat == types.TopicCatP2P {
 				// For P2P topics ignore requests for 'D'. Otherwise it will generate a useless announcement.
 				modeWant = (modeWant & types.ModeCP2P) | types.ModeApprove
+			} else if userData.isChan {
+				// A channel reader: the same limits as when the reader subscribed.
+				modeWant = (modeWant & types.ModeCChnReader) | types.ModeRead | types.ModeJoin
 			} else if t.cat == types.TopicCatSys {
 				// Anyone can always write to Sys topic.
 				modeWant &= (modeWant & types.ModeCSys) | types.ModeWrite
@@ -1752,7 +1755,12 @@ func (t *Topic) thisUserSub(sess *Session, pkt *ClientComMessage, asUid types.Ui
 		}
 
 		if len(update) > 0 {
-			if err := store.Subs.Update(t.name, asUid, update); err != nil {
+			tname := t.name
+			if userData.isChan {
+				// The subscription of a channel reader is stored under the channel name.
+				tname = types.GrpToChn(t.name)
+			}
+			if err := store.Subs.Update(tname, asUid, update); err != nil {
 				sess.queueOut(ErrUnknownReply(pkt, now))
 				return nil, err
 			}
